@@ -17,15 +17,15 @@ Qed.
 
 Lemma variants_eqb_eq a b : variants_eqb a b = true -> a = b.
 Proof.
-  destruct a as [a1 a2 a3], b as [b1 b2 b3]. unfold variants_eqb. cbn.
-  intros E. apply andb_true_iff in E as [E E3]. apply andb_true_iff in E as [E1 E2].
-  apply Bool.eqb_prop in E1, E2, E3. now subst.
+  destruct a as [a1 a2 a4 a3], b as [b1 b2 b4 b3]. unfold variants_eqb. cbn.
+  intros E. apply andb_true_iff in E as [E E4]. apply andb_true_iff in E as [E E3]. apply andb_true_iff in E as [E1 E2].
+  apply Bool.eqb_prop in E1, E2, E3, E4. now subst.
 Qed.
 
 Lemma exc_eqb_refl e : exc_eqb e e = true.
 Proof. apply Z.eqb_refl. Qed.
 
-Lemma run_model_spec c : valid c -> run_model c = run_spec (cV c) (cC c) (cO c) (cT c).
+Lemma run_model_spec c : valid c -> run_model c = run_spec (no_marker (cV c)) (cC c) (cO c) (cT c).
 Proof.
   unfold valid, validb. intros Hv. apply andb_true_iff in Hv as [Hv Hy].
   apply variants_eqb_eq in Hv.
@@ -41,7 +41,7 @@ Qed.
 Lemma holds_model c : valid c -> holds c (run_model c) = [].
 Proof.
   intros Hv. unfold holds. rewrite (run_model_spec c Hv).
-  destruct (run_spec (cV c) (cC c) (cO c) (cT c)) as [d|e].
+  destruct (run_spec (no_marker (cV c)) (cC c) (cO c) (cT c)) as [d|e].
   - unfold same_dict. now rewrite same_refl.
   - now rewrite exc_eqb_refl.
 Qed.
